@@ -6,6 +6,7 @@ import (
 	"fmt"
 	"math/rand"
 	"os"
+	"regexp"
 	"sort"
 	"strings"
 	"time"
@@ -525,6 +526,8 @@ func fixModuleQuote(text string) string {
 
 func canonFixer(path, vers string) (string, error) { return vers, nil }
 
+var moduleBlockRE = regexp.MustCompile(`(?m)^module[ \t]*\(`)
+
 func checkWellFormed(c *core.Case) ([]core.Violation, bool) {
 	var in struct {
 		Kind   string   `json:"kind"`
@@ -649,7 +652,7 @@ func checkWellFormed(c *core.Case) ([]core.Violation, bool) {
 			}
 			// the quick module-path extractor agrees with the strict parser
 			// (the property speaks of files whose module directive is a single line)
-			if st1.Mod != "" && !v.modblk {
+			if st1.Mod != "" && !v.modblk && !moduleBlockRE.MatchString(text) {
 				if got := modfile.ModulePath([]byte(text)); got != st1.Mod {
 					kind := "differs"
 					if got != "" && got != st1.Mod && strings.Contains(text, "\tmodule ") {
